@@ -312,7 +312,7 @@ pub fn scenarios(thorough: bool, rng_streams: u64) -> Vec<Scenario> {
             for cmask in 0..(1u32 << n_in) {
                 // issuance variants: none, new issuance (amount+tokens) on input 0, new issuance amount only on last,
                 // reissuance on input 0
-                for iss in 0..4u8 {
+                for iss in 0..5u8 {
                     if iss != 0 && (n_in == 3 && !thorough) {
                         continue;
                     }
@@ -327,6 +327,7 @@ pub fn scenarios(thorough: bool, rng_streams: u64) -> Vec<Scenario> {
                                 1 if i == 0 => Some(IssSpec { reissuance: false, amount: 700, tokens: 3 }),
                                 2 if i == n_in - 1 => Some(IssSpec { reissuance: false, amount: 55, tokens: 0 }),
                                 3 if i == 0 => Some(IssSpec { reissuance: true, amount: 41, tokens: 0 }),
+                                4 if i == 0 => Some(IssSpec { reissuance: false, amount: 0, tokens: 9 }),
                                 _ => None,
                             },
                         })
@@ -336,6 +337,7 @@ pub fn scenarios(thorough: bool, rng_streams: u64) -> Vec<Scenario> {
                         1 => vec![(2, 700), (3, 3)],
                         2 => vec![(2, 55)],
                         3 => vec![(2, 41)],
+                        4 => vec![(3, 9)],
                         _ => vec![],
                     };
                     for n_out in 1..=max_out {
@@ -494,7 +496,7 @@ pub fn run(r: &Report) {
     scs.extend(magnitude_scenarios());
     r.set_rule(
         "scenario product: n_in 1..3 x asset assignment {A,B} x explicit/confidential spent outputs x {no issuance, new issuance with \
-         tokens on first input, new issuance on last input, reissuance} x 1..3(4) free outputs over the assets present x every non-empty \
+         tokens on first input, new issuance on last input, reissuance, token-only issuance} x 1..3(4) free outputs over the assets present x every non-empty \
          marked subset x fee position (first/middle/last; quick cycles one per marking for >=3 outputs) x rng stream menu; plus 9 value \
          magnitudes up to 2^63-1 on first/last/plain outputs; plus direct constructor paths. non-trivial = distinct scenarios whose \
          blinded transaction verified and unblinded",
